@@ -32,7 +32,7 @@ OTHERS = [errno.ETIMEDOUT, errno.EHOSTUNREACH, errno.EPERM]
 
 
 def bounds(tier):
-    return "URL grid of 25920 strings%s; 340 address lists x 2 option sets x 2 timeouts x 3 'other' errno values; 36 ordered pairs of settings for successive connections" % (
+    return "URL grid of 25920 strings%s; 340 address lists x {IPv4, IPv6, mixed} x 2 option sets x 2 timeouts x 3 'other' errno values; 36 ordered pairs of settings for successive connections" % (
         " + all ports 1..65535" if tier == "thorough" else " + ports 1..65535 step 257")
 
 
@@ -42,6 +42,11 @@ def all_urls():
         u = sc + sep + ui + h + ("" if p is None else ":" + p) + pa + ("" if q is None else "?" + q)
         out.append(u)
     return out
+
+
+def trace_variant(desc, tier):
+    """Every task is run a second time with trace logging enabled (enableTrace(True) is a process-wide configuration)."""
+    return True
 
 
 def tasks(tier, seed):
@@ -145,20 +150,21 @@ def url_case(url, through_connect=True):
     return None
 
 
-def addr_case(outs, user_opt, timeout, other_errno, tsrc="settimeout"):
-    """outs: tuple of outcome kinds (index into OUTCOMES)"""
+def addr_case(outs, user_opt, timeout, other_errno, tsrc="settimeout", fam="v4"):
+    """outs: tuple of outcome kinds (index into OUTCOMES); fam: address families of the resolver's answer (v4 | v6 | mixed = v6 first, alternating)"""
     lib.reset_globals()
     env.install_urandom("counter")
     net = simnet.Net()
     kinds = [OUTCOMES[i] if OUTCOMES[i] != errno.ETIMEDOUT else other_errno for i in outs]
-    ips = ["192.0.2.%d" % (i + 1) for i in range(len(outs))]
     import socket as S
-    net.resolver = lambda host, port: [(S.AF_INET, ip) for ip in ips]
+    is6 = [fam == "v6" or (fam == "mixed" and i % 2 == 0) for i in range(len(outs))]
+    ips = ["2001:db8::%d" % (i + 1) if is6[i] else "192.0.2.%d" % (i + 1) for i in range(len(outs))]
+    net.resolver = lambda host, port: [(S.AF_INET6 if is6[i] else S.AF_INET, ip) for i, ip in enumerate(ips)]
     net.dial = lambda n_, s, a: kinds[ips.index(a[0])]
     net.peer_for = lambda n_, s, a: Peer()
     simnet.install(net)
     sockopt = [(S.SOL_SOCKET, S.SO_RCVBUF, 12345)] if user_opt else []
-    label = "addresses %r sockopt=%r timeout=%r" % (kinds, sockopt, timeout)
+    label = "addresses %r (%s) sockopt=%r timeout=%r" % (kinds, fam, sockopt, timeout)
     label += " timeout-source=%s" % tsrc
     ws = None
     try:
@@ -325,8 +331,9 @@ def run_task(desc):
                 for timeout in (None, 5):
                     for other in (OTHERS if 3 in outs else OTHERS[:1]):
                         for tsrc in (("settimeout", "connect-option", "create_connection", "setdefaulttimeout") if other == OTHERS[0] else ("settimeout",)):
-                            n += 1
-                            rec(guarded(addr_case, outs, user_opt, timeout, other, tsrc), {"case": "addr", "args": [list(outs), user_opt, timeout, other, tsrc]})
+                            for fam in (("v4", "v6", "mixed") if tsrc == "settimeout" else ("v4",)):
+                                n += 1
+                                rec(guarded(addr_case, outs, user_opt, timeout, other, tsrc, fam), {"case": "addr", "args": [list(outs), user_opt, timeout, other, tsrc, fam]})
         res["samples"].append({"address_list_length": desc["k"], "outcomes": ["accept", "ECONNREFUSED", "ENETUNREACH", "other"]})
     res["execs"] = res["complete"] = res["distinct"] = n
     return res
@@ -339,5 +346,5 @@ def replay(rep):
         f = history_case(*rep["args"])
     else:
         a = rep["args"]
-        f = addr_case(tuple(a[0]), a[1], a[2], a[3], a[4] if len(a) > 4 else "settimeout")
+        f = addr_case(tuple(a[0]), a[1], a[2], a[3], a[4] if len(a) > 4 else "settimeout", a[5] if len(a) > 5 else "v4")
     return None if f is None else {"sig": f[0], "what": f[1]}
